@@ -91,8 +91,13 @@ func c14filter(delay time.Duration, n, bound int, go123 bool) *explore.Scenario 
 	return sc
 }
 
-func c14router(minDelay, maxJitter time.Duration, n, bound int) *explore.Scenario {
+func c14router(minDelay, maxJitter time.Duration, n, bound int, slow ...time.Duration) *explore.Scenario {
 	sc := &explore.Scenario{Name: fmt.Sprintf("router minDelay=%v jitter=%v n=%d", minDelay, maxJitter, n), Bound: bound}
+	var slowBy time.Duration
+	if len(slow) > 0 {
+		slowBy = slow[0]
+		sc.Name += fmt.Sprintf(" slow-nic=%v", slowBy)
+	}
 	sc.Cfg.Horizon = 30 * time.Second
 	sc.Cfg.RandMenu = func(k int64) []int64 {
 		if k <= 1 {
@@ -106,6 +111,7 @@ func c14router(minDelay, maxJitter time.Duration, n, bound int) *explore.Scenari
 	}
 	sc.Make = func() (func(), func(*zzvsched.Exec) (string, *explore.Violation)) {
 		rec := vnet.ZZNewRecNIC("10.0.0.2")
+		rec.SlowBy = slowBy
 		var sentAt []time.Duration
 		var script []string
 		wrote := 0
@@ -265,6 +271,8 @@ func init() {
 					out = append(out, c14router(md, j, 3, b))
 				}
 			}
+			// a downstream NIC that takes longer per chunk than the spacing of the arrivals
+			out = append(out, c14router(time.Millisecond, 0, 3, 1, 2*time.Microsecond), c14router(20*time.Millisecond, 0, 3, 1, 30*time.Millisecond))
 			out = append(out, c14twoRouters(time.Millisecond, 20*time.Millisecond, 2, 1), c14twoRouters(10*time.Millisecond, time.Millisecond, 2, 1))
 			if tier == "thorough" {
 				out = append(out, c14filter(0, 3, 3, false), c14filter(500*time.Microsecond, 3, 3, false), c14router(time.Millisecond, 0, 3, 3))
